@@ -486,6 +486,20 @@ var All = []Prog{
 		}
 		return "done"
 	}, []string{"done"}},
+	{"ticker/poll-until-done", func() string {
+		var done atomic.Bool
+		go func() { done.Store(true) }()
+		tk := time.NewTicker(time.Millisecond)
+		defer tk.Stop()
+		n := 0
+		for range tk.C {
+			n++
+			if done.Load() {
+				break
+			}
+		}
+		return "done"
+	}, []string{"done"}},
 	{"pool/nil-new", func() string {
 		var p sync.Pool
 		return fmt.Sprint(p.Get())
